@@ -193,6 +193,33 @@ impl Instant {
         ensures r.ms == (if self.t >= earlier.t { self.t - earlier.t } else { 0 })
     { unimplemented!() }
 }
+// comparison operators on durations and instants: the order of their millisecond values
+
+impl PartialEq for Duration { fn eq(&self, o: &Duration) -> (r: bool) ensures r == (self.ms == o.ms) { self.ms == o.ms } }
+impl vstd::std_specs::cmp::PartialEqSpecImpl for Duration {
+    open spec fn obeys_eq_spec() -> bool { true }
+    open spec fn eq_spec(&self, o: &Duration) -> bool { self.ms == o.ms }
+}
+impl PartialOrd for Duration {
+    fn partial_cmp(&self, o: &Duration) -> (r: Option<core::cmp::Ordering>) { if self.ms < o.ms { Some(core::cmp::Ordering::Less) } else if self.ms == o.ms { Some(core::cmp::Ordering::Equal) } else { Some(core::cmp::Ordering::Greater) } }
+}
+impl vstd::std_specs::cmp::PartialOrdSpecImpl for Duration {
+    open spec fn obeys_partial_cmp_spec() -> bool { true }
+    open spec fn partial_cmp_spec(&self, o: &Duration) -> Option<core::cmp::Ordering> { if self.ms < o.ms { Some(core::cmp::Ordering::Less) } else if self.ms == o.ms { Some(core::cmp::Ordering::Equal) } else { Some(core::cmp::Ordering::Greater) } }
+}
+
+impl PartialEq for Instant { fn eq(&self, o: &Instant) -> (r: bool) ensures r == (self.t == o.t) { self.t == o.t } }
+impl vstd::std_specs::cmp::PartialEqSpecImpl for Instant {
+    open spec fn obeys_eq_spec() -> bool { true }
+    open spec fn eq_spec(&self, o: &Instant) -> bool { self.t == o.t }
+}
+impl PartialOrd for Instant {
+    fn partial_cmp(&self, o: &Instant) -> (r: Option<core::cmp::Ordering>) { if self.t < o.t { Some(core::cmp::Ordering::Less) } else if self.t == o.t { Some(core::cmp::Ordering::Equal) } else { Some(core::cmp::Ordering::Greater) } }
+}
+impl vstd::std_specs::cmp::PartialOrdSpecImpl for Instant {
+    open spec fn obeys_partial_cmp_spec() -> bool { true }
+    open spec fn partial_cmp_spec(&self, o: &Instant) -> Option<core::cmp::Ordering> { if self.t < o.t { Some(core::cmp::Ordering::Less) } else if self.t == o.t { Some(core::cmp::Ordering::Equal) } else { Some(core::cmp::Ordering::Greater) } }
+}
 impl Clone for Instant { #[verifier::external_body] fn clone(&self) -> (r: Self) ensures r == *self { unimplemented!() } }
 impl Copy for Instant {}
 impl Duration {
